@@ -128,6 +128,7 @@ type State struct {
 	fresh       map[string]bool // ref terms allocated on this path
 	pathLen     int
 	trace       []string
+	clos        []cloEntry
 	ghostN      map[string]Term
 	dead        bool
 	strKeys     []Term
@@ -189,7 +190,14 @@ func (st *State) clone() *State {
 		ns.fresh[k] = true
 	}
 	ns.trace = append([]string{}, st.trace...)
+	ns.clos = append([]cloEntry{}, st.clos...)
 	return &ns
+}
+
+// cloEntry: a closure created on this path that was turned into a term (stored in a struct field or an interface)
+type cloEntry struct {
+	t Term
+	c *Closure
 }
 
 func (st *State) assume(t Term) {
@@ -554,12 +562,39 @@ func (st *State) noteWrite(name string, ref Term) {
 func (st *State) closureTerm(v Value) Term {
 	e := st.eng()
 	key := "fn_" + sanitize(v.Clo.Fn.String())
+	for _, ce := range st.clos {
+		if ce.c == v.Clo {
+			return ce.t
+		}
+	}
+	var t Term
 	if len(v.Clo.Bindings) > 0 {
 		// closure identity: fresh
-		return e.fresh(key, SInt)
+		t = e.fresh(key, SInt)
+	} else {
+		t = e.constNamed(key, SInt)
 	}
-	t := e.constNamed(key, SInt)
+	st.assume(Ne(t, IntLit(0)))
+	st.clos = append(st.clos, cloEntry{t, v.Clo})
 	return t
+}
+
+// resolveClosure: a func value read back from memory that is provably one of the closures created on this path
+func (st *State) resolveClosure(fnv Value) *Closure {
+	if len(st.clos) == 0 || fnv.Tm.IsZero() || fnv.Tm.Sort != SInt {
+		return nil
+	}
+	var goals []Term
+	for _, ce := range st.clos {
+		goals = append(goals, Eq(fnv.Tm, ce.t))
+	}
+	res := st.eng().multiQueryRaw(st.pcSlice(), goals)
+	for i, ok := range res {
+		if ok {
+			return st.clos[i].c
+		}
+	}
+	return nil
 }
 
 type EngineError struct{ msg string }
